@@ -11,6 +11,7 @@ import (
 )
 
 var atoms = []string{".config", ".fullname", ".name", "/p", "/q", "/gomaxprocs", "k0", "k1", "k2", "i", ".file", ".config", ".fullname"}
+
 // values incl. leading/trailing blanks and tabs, inner blanks, whitespace-only values: a value is
 // kept byte for byte ("Xeon " is not "Xeon")
 var cvals = []string{"v1", "v2", "x y", "", "v1", "v1 ", " v1", "v1\t", "v2 ", " ", "\t", "x  y", "  ", "v1  "}
@@ -188,8 +189,15 @@ func scenarioOf(b base, perm []int, residue bool, tags ...string) Scenario {
 		sc.Ops = append(sc.Ops, Op{Kind: 'R'})
 		sc.Tags = append(sc.Tags, "residue")
 	}
-	for _, res := range b.results {
+	nq := 0
+	for i, res := range b.results {
 		sc.Ops = append(sc.Ops, Op{Kind: 'A', Res: res})
+		// a query in the middle of the stream (all observables of all projections as they are now)
+		if nq < 2 && (i*7+len(b.results)+len(perm))%5 == 0 && i+1 < len(b.results) {
+			sc.Ops = append(sc.Ops, Op{Kind: 'Q'})
+			sc.Tags = append(sc.Tags, "query")
+			nq++
+		}
 	}
 	return sc
 }
